@@ -19,10 +19,28 @@ from common import hexb
 LEVEL = "proof"
 
 
+_DECOY = {"planted": False}
+
+
 def load():
     from pydap.handlers.lib import BaseHandler
     from pydap.wsgi.ssf import ServerSideFunctions
 
+    if not _DECOY["planted"]:
+        # another application of the same process has its own functions under the stock names (the keyword
+        # functions of ServerSideFunctions are per instance): they must stay that application's
+        _DECOY["planted"] = True
+        from pydap.model import BaseType, DatasetType
+
+        def decoy(dataset, *args):
+            out = DatasetType("decoy")
+            out["decoy"] = BaseType("decoy", np.array([-12345.0]))
+            return out
+
+        ds0 = DatasetType("d0")
+        ds0["a"] = BaseType("a", np.arange(4, dtype="i4"))
+        other = ServerSideFunctions(BaseHandler(ds0), mean=decoy, bounds=decoy)
+        _DECOY["answer"] = G.run_request(other, "/d0.dods", "mean(a,0)")["status"]
     return BaseHandler, ServerSideFunctions
 
 
@@ -360,8 +378,14 @@ def bounds_checks(ctx, tier, rng):
                             "status 200", size=len(rows) * ncols)
             continue
         head, _, payload = res["body"].partition(b"Data:\n")
-        _, decl, _ = G.parse_dds(head.decode("ascii"))
-        vals = [int(v) for v in G.decode_dods_values(decl, payload)]
+        try:
+            _, decl, _ = G.parse_dds(head.decode("ascii"))
+            vals = [int(v) for v in G.decode_dods_values(decl, payload)]
+        except Exception as e:      # an answer that is not the declared sequence at all
+            ctx.oracle_fail("bounds answer does not decode as the requested columns", case,
+                            "%s: %s" % (type(e).__name__, head[:120].decode("ascii", "replace")), "a sequence of the requested columns",
+                            size=len(rows) * ncols)
+            continue
         k = len(cols_req)
         got = [vals[i:i + k] for i in range(0, len(vals), k)]
         if got != [[r[i] for i in cols_req] for r in want]:
@@ -696,8 +720,12 @@ def replay(payload):
             print("request failed:", res["exc"] or res["status"])
             return False
         head, _, payload_ = res["body"].partition(b"Data:\n")
-        _, decl, _ = G.parse_dds(head.decode("ascii"))
-        vals = [int(v) for v in G.decode_dods_values(decl, payload_)]
+        try:
+            _, decl, _ = G.parse_dds(head.decode("ascii"))
+            vals = [int(v) for v in G.decode_dods_values(decl, payload_)]
+        except Exception as e:
+            print("answer does not decode:", type(e).__name__)
+            return False
         k = len(c["cols"])
         got = [vals[i:i + k] for i in range(0, len(vals), k)]
         print("observed", got, "expected", want)
@@ -777,8 +805,12 @@ def replay(payload):
         print("request failed:", res["exc"] or res["status"])
         return False
     head, _, payload_ = res["body"].partition(b"Data:\n")
-    _, decl, _ = G.parse_dds(head.decode("ascii"))
-    vals = G.decode_dods_values(decl, payload_)
+    try:
+        _, decl, _ = G.parse_dds(head.decode("ascii"))
+        vals = G.decode_dods_values(decl, payload_)
+    except Exception as e:
+        print("answer does not decode:", type(e).__name__)
+        return False
     src = np.array(info["data"], dtype="f8").reshape(info["shape"])
     for k in c["axes"]:
         src = src.mean(axis=k)
